@@ -54,6 +54,9 @@ class Cache:
     #     the keys are the norm-cased filenames.
     # dict<str, object> _operation_versions - The versions of the simple
     #     operations, as in _OPERATION_VERSIONS.
+    # set<str> _rebuilt_files - The non-norm-cased filenames of the files we
+    #     have started building, excluding files for which we simply reused a
+    #     previously cached result. This is guarded by _files_lock.
     # dict<object, SubbuildOperation> _subbuilds - A map containing entries for
     #     the cache keys of the subbuilds that we have started, as in
     #     subbuild_key. For the subbuilds that we have finished, including
@@ -105,6 +108,7 @@ class Cache:
         self._norm_cased_files = {}
         for filename, operation in files.items():
             self._norm_cased_files[os.path.normcase(filename)] = operation
+        self._rebuilt_files = set()
 
     @staticmethod
     def create_empty_mutable(build_name, func_versions):
@@ -188,6 +192,7 @@ class Cache:
                 norm_cased_filename, filename)
             self._files[filename] = None
             self._norm_cased_files[norm_cased_filename] = None
+            self._rebuilt_files.add(filename)
 
     def finish_building_file(self, operation):
         """Record the result of building the specified file.
@@ -270,6 +275,17 @@ class Cache:
                 if operation is not None and not operation.raised:
                     created_files.append(filename)
         return created_files
+
+    def rebuilt_files(self):
+        """Return the files we have started building.
+
+        This is a list of the non-norm-cased filenames of all of the
+        files that we have started building, whether or not we finished
+        and whether or not this resulted in an exception. It excludes
+        the files for which we simply reused a previously cached result.
+        """
+        with self._files_lock:
+            return list(self._rebuilt_files)
 
     def get_subbuild(self, subbuild_key):
         """Return the operation associated with the specified subbuild key.
